@@ -99,6 +99,10 @@ func (i *UnixStamp) UnmarshalJSON(b []byte) error {
 		return ErrInvalidInt64Js
 	}
 
+	if b[0] != '"' || b[lb-1] != '"' {
+		return ErrInvalidInt64Js
+	}
+
 	strBuf := string(b[1 : lb-1])
 	t, err := strconv.Atoi(strBuf)
 	if err != nil {
